@@ -122,3 +122,31 @@ pub open spec fn multi_prod(bases: Seq<Integer>, msgs: Seq<CL03Message>, idx: Se
 pub open spec fn commit_multi_opens(value: int, bases: Seq<Integer>, msgs: Seq<CL03Message>, idx: Seq<usize>, h: int, r: int, n: int) -> bool {
     value == (multi_prod(bases, msgs, idx, n, idx.len() as int) * pow_mod(h, r, n)) % n
 }
+
+// ---- issuance proof (ZKPoK): what verification establishes ------------------------------------------------------
+/// acceptance predicates of the multi-secret protocols (their equations are not unfolded here)
+pub uninterp spec fn ms_accepts(p: NISPMultiSecrets, c: CL03Commitment, pk: CL03PublicKey, bases: Seq<Integer>, idx: Seq<usize>) -> bool;
+pub uninterp spec fn n2c_accepts(p: NISP2Commitments, c1: CL03Commitment, c2: CL03Commitment, pk: CL03PublicKey, bases: Seq<Integer>, cpk: CL03CommitmentPublicKey, idx: Seq<usize>) -> bool;
+/// acceptance of a Boudot range proof against (bases, modulus, bounds): unfolded in unit cl_range
+pub uninterp spec fn range_accepts(p: Boudot2000RangeProof, g: int, h: int, n: int, lo: int, hi: int) -> bool;
+
+/// the core of ZKPoK::verify_proof: multi-secret PoK on C, per-attribute PoK + range proof, PoK + range proof of r
+pub open spec fn zk_core<CS: CLCiphersuite>(zk: CL03ZKPoK, c: CL03Commitment, pk: CL03PublicKey, bases: Seq<Integer>, idx: Seq<usize>) -> bool {
+    &&& ms_accepts(zk.proof_commited_msgs, c, pk, bases, idx)
+    &&& zk.proofs_commited_mi@.len() >= idx.len() && zk.range_proofs_mi@.len() >= idx.len()
+    &&& forall|k: int| 0 <= k < idx.len() ==> nisp2sec_accepts::<CS>((#[trigger] zk.proofs_commited_mi@[k]).value, zk.proofs_commited_mi@[k].commitment, bases[idx[k] as int]@, pk.b@, pk.N@)
+    &&& forall|k: int| 0 <= k < idx.len() ==> range_accepts(#[trigger] zk.range_proofs_mi@[k], bases[idx[k] as int]@, pk.b@, pk.N@, 0, ipow(2, CS::lm as nat) - 1)
+    &&& nisp2sec_accepts::<CS>(zk.proof_r.value, zk.proof_r.commitment, bases[0]@, pk.b@, pk.N@)
+    &&& range_accepts(zk.range_proof_r, bases[0]@, pk.b@, pk.N@, 0, ipow(2, CS::ln as nat) - 1)
+}
+
+/// F11: the statements are tied together — each range proof speaks about the commitment of the matching PoK, and
+/// the per-attribute commitments are the ones the multi-secret proof / C speak about
+pub open spec fn zk_ties(zk: CL03ZKPoK, idx: Seq<usize>) -> bool {
+    &&& forall|k: int| 0 <= k < idx.len() ==> (#[trigger] zk.range_proofs_mi@[k]).E@ == zk.proofs_commited_mi@[k].commitment.value@
+    &&& zk.range_proof_r.E@ == zk.proof_r.commitment.value@
+}
+
+pub open spec fn eff_idx0(idx: Option<&[usize]>) -> Seq<usize> {
+    match idx { Some(s) => s@, None => seq![0usize] }
+}
